@@ -35,6 +35,7 @@ class TimedSys:
     # reachable time offsets unbounded; their number per history is bounded like deviations
     FINE = ("next-2r", "next-r/2", "next+eps")
     max_fine = 1
+    half_step = HALF
 
     def __init__(self, cfg):
         self.cfg = cfg
@@ -91,7 +92,7 @@ class TimedSys:
         if adv is None:
             return now, loop.timers_due()
         if adv == "half":
-            t = now + HALF
+            t = now + self.half_step
             if d is not None and d <= t:
                 return None, False
             return t, False
@@ -272,12 +273,15 @@ def search(ctx, cls, cfg, depth, name, deadline=None, max_states=None, stride=97
         case = dict(search=name, cfg=cfg, history=[list(e) for e in path])
         viols.append(core.Violation(ctx.prop, v["clause"], v["disc"], case, detail=v["detail"]))
     nchk, bad = explore.validate_dedupe(res, fn, limit=48 if ctx.thorough else 16)
-    if bad:
+    if bad and not viols:
+        # (with violations present the merged-state mismatch is usually a consequence of the defect:
+        # report the violations, keep the mismatch in the evidence)
         raise HarnessError(f"state key merged two states with different futures: {bad[0]}")
     detail = dict(search=name, cfg=core.jsonable(cfg), states=res.states, transitions=res.transitions,
                   depth_completed=res.depth_completed, closure=res.closure, frontier=res.frontier,
                   levels=res.levels, dedupe_hits=res.dedupe_hits, dedupe_validated=nchk, capped=res.capped,
-                  pruned_violating=res.pruned_violating, distinct_outcomes=len(res.outcomes))
+                  pruned_violating=res.pruned_violating, distinct_outcomes=len(res.outcomes),
+                  dedupe_mismatches=len(bad))
     return res, viols, detail
 
 
